@@ -86,7 +86,11 @@ def replay_case(case):
 def eval_block(block, acc):
     ring, first, k = block
     cfgs = DEFAULTS if ring == "default" else product_configs()
-    seqs = [()] if first is None else ((first,) + t for t in streams.token_seqs(k - 1, ALPHABET))
+    if ring == "long":
+        cfgs = DEFAULTS + [dict(msgmode=1, validate=0, quitonerror=1, handler=True)]
+        seqs = streams.long_seqs(streams.LONG_NEIGHBOURS)
+    else:
+        seqs = [()] if first is None else ((first,) + t for t in streams.token_seqs(k - 1, ALPHABET))
     for seq in seqs:
         for cfg in cfgs:
             out, r, exp = judge(seq, cfg)
@@ -109,6 +113,7 @@ def run_tier(tier, t0):
     blocks = [("default", None, 0)]
     blocks += [("default", f, k_def) for f in ALPHABET]
     blocks += [("product", f, k_prod) for f in ALPHABET]
+    blocks.append(("long", None, 0))
     acc = engine.sweep(blocks, eval_block)
     # vacuity: per mode, at least one accepted and one rejected token per protocol that can be accepted
     vac = []
@@ -124,7 +129,7 @@ def run_tier(tier, t0):
         rule=(
             f"all sequences of <= {k_def} tokens over {len(ALPHABET)} tokens ({len(streams.FRAME_TOKENS)} frames incl. bad-checksum/CRC, "
             f"zero-length RTCM3, unknown-ID, embedded-preamble; {len(streams.NOISE_TOKENS)} noise) x 2 default configurations, and all "
-            f"sequences of <= {k_prod} tokens x msgmode(4) x validate(2) x parsebitfield(2) x quitonerror(2). Expected items by construction "
+            f"sequences of <= {k_prod} tokens x msgmode(4) x validate(2) x parsebitfield(2) x quitonerror(2). plus every boundary-length frame (RTCM3 255/256/511/512/1023-byte payloads, UBX 255/256/4096, 200-char NMEA) between every pair of 7 neighbour tokens. Expected items by construction "
             "from each token's standalone parser verdict. distinct_nontrivial = distinct (frames expected, protocols) classes"
         ),
         assumptions=[
